@@ -138,10 +138,7 @@ Example C01_closest_points_feasible_nonvacuous :
   convex fxA /\ convex fxB /\ rows fxA fxB fxY fxP fxQ /\
   (exists a b, calculate_closest_points fxY fxP fxQ = Some (a, b)) /\ tetra_regular fxY /\
   (forall ws, closest_weights fxY = Some ws -> Forall (fun w => (0 <= w)%R) ws).
-Proof.
-  destruct closest_points_feasible_nonvacuous as (H1 & H2 & H3 & H4 & H5 & H6).
-  refine (conj H1 (conj H2 (conj H3 (conj _ (conj H5 H6))))). eexists; eexists; exact H4.
-Qed.
+Proof. exact closest_points_feasible_nonvacuous_ex. Qed.
 
 (** the hypotheses of [C01_exact_on_stall_partial] are satisfiable TOGETHER: the state of the loop
     model after its first iteration on A = {(2,0,0)}, B = {(0,0,0)} meets all eight of them (the second
